@@ -61,7 +61,7 @@ Enq ==
     LET nx == IF d = 0 THEN 0 ELSE now + d
     IN DoEnqueue(<<EnvOf(i, nx)>>, TRUE, [op |-> "Enqueue", env |-> EnvJson(i, nx)])
 
-BatchSeqs == {<<a, b>> : a, b \in Ids}
+BatchSeqs == {<<a, b>> : a, b \in Ids} \cup {<<a>> : a \in Ids}
 EnqBatch ==
   /\ On("admission")
   /\ \E q \in BatchSeqs :
